@@ -98,6 +98,26 @@ def special_projects():
     return out
 
 
+def twin_projects(rng, n):
+    """the same WRITTEN include name used from several directories, where it names different
+    files with different content (names resolve relative to the including file)"""
+    out = []
+    for i in range(n):
+        k = rng.randint(2, 3)
+        files = {"root.jst": b"JSIGHT 0.3\n" + b"".join(b"INCLUDE d%d/api.jst\n" % j for j in range(k))}
+        codes = rng.sample([200, 201, 202, 400, 404, 409, 500], k)
+        for j in range(k):
+            files["d%d/api.jst" % j] = b"GET /r%d\n  INCLUDE parts/resp.jst\n" % j + (b"INCLUDE t.jst\n" if rng.random() < 0.5 else b"")
+            files["d%d/parts/resp.jst" % j] = b"%d any // from d%d\n" % (codes[j], j) + (b"404 any\n" if codes[j] != 404 and rng.random() < 0.5 else b"")
+            if b"INCLUDE t.jst" in files["d%d/api.jst" % j]:
+                files["d%d/t.jst" % j] = b"TYPE @t%d\n  {\"k%d\": %d}\n" % (j, j, j)
+        if rng.random() < 0.5:
+            files["root.jst"] += b"INCLUDE t.jst\n"
+            files["t.jst"] = b"TYPE @troot any\n"
+        out.append(files)
+    return out
+
+
 def locate(lmap, line):
     return lmap[line - 1] if 1 <= line <= len(lmap) else None
 
@@ -109,7 +129,7 @@ def matches_finding(v, f):
 def run(tier, out, model_ok, proof):
     rng = random.Random(seed())
     big = tier == "thorough"
-    projects = special_projects()
+    projects = special_projects() + twin_projects(rng, 300 if big else 40)
     for i in range(2500 if big else 300):
         roots = treecorr.gen_structured(rng, with_macros=rng.random() < 0.25)
         if rng.random() < 0.25:
@@ -171,7 +191,7 @@ def run(tier, out, model_ok, proof):
     out.coverage.update({
         "evaluations": len(cases),
         "distinct_nontrivial": sum(1 for _, f, _ in metas if len(f) > 1),
-        "rule": "structured documents (some with one injected rule fault) cut at directive boundaries into include trees (nesting <= 3, pieces in sub-directories, equal sibling runs included from the same file, files without a final newline, cuts after directives that still wait for children) + hand-picked projects; each project is built and compared with its textual inlining (lib/meta.py): catalog JSON, or message and corresponding file:line; forests are compared with the extracted Coq model; non-trivial = at least one INCLUDE",
+        "rule": "structured documents (some with one injected rule fault) cut at directive boundaries into include trees (nesting <= 3, pieces in sub-directories, equal sibling runs included from the same file, files without a final newline, cuts after directives that still wait for children) + hand-picked projects + projects in which one written include name is used from several directories and names different files; each project is built and compared with its textual inlining (lib/meta.py): catalog JSON, or message and corresponding file:line; forests are compared with the extracted Coq model; non-trivial = at least one INCLUDE",
         "samples": [{n: d.decode("latin1")[:200] for n, d in projects[0].items()}],
         "traces_validated_against_impl": (len([c for c in cases if c["id"].startswith("p")]) - len(mism)) if model_ok else 0,
         "accepted_pairs": acc, "rejected_pairs": rej,
